@@ -109,6 +109,8 @@ def country(draw, code, role, K, gold_allowed, has_gov=True):
             if draw(gen.chance(1, 3)):
                 c['deposit'] = {'code': 'DEP', 'r': draw(path(K, 0, 800, places=4))}
     if c['deposit'] is not None and draw(gen.chance(1, 3)):
+        c['shared_weights'] = True
+    if c['deposit'] is not None and draw(gen.chance(1, 3)):
         # a second interest-bearing asset of the same issuer: households then allocate among three assets
         c['bonds'] = {'code': 'BND', 'r': draw(path(K, 0, 900, places=4)), 'weight': dec4(draw(st.integers(0, 4000)))}
     return c
@@ -587,6 +589,7 @@ def _construct(spec, out, mod, zsel, nm, dsc, make_external, order_seed, hooks, 
     out.decl_order = seq
 
     # ---- post-declaration wiring, fixed order
+    shared_rule = {}
     for zi in zsel:
         zone = spec['zones'][zi]
         c0 = zone['countries'][0]
@@ -644,6 +647,9 @@ def _construct(spec, out, mod, zsel, nm, dsc, make_external, order_seed, hooks, 
                             # the accounting identities hold for any weights
                             pairs.append((S[(zi, 0, 'bonds')].Code, c0['bonds']['weight']))
                         arg = dict(pairs) if h['weights']['form'] == 'dict' else list(pairs)
+                        if c0.get('shared_weights') and h['weights']['form'] == 'dict':
+                            # one portfolio rule (ONE dict object) handed to every household of the zone
+                            arg = shared_rule.setdefault(zi, arg)
                         S[(zi, ci, 'hh%d' % hi)].GenerateAssetWeighting(arg, moncode)
             if c0.get('bonds') is not None:
                 S[(zi, 0, 'bonds')].SetExogenous('r', '[' + ', '.join(c0['bonds']['r']) + ']')
